@@ -275,6 +275,25 @@ func stagePeer(c *Ctx, im *Impl, cf *CaseFile) {
 			add("reject-"+phase, ds, "")
 		}
 	}
+	// truncations of VALID data packets: correct header, both node hashes known to the node, at
+	// every length 0..40, in the established phase (the length guard of translateDataToMessage
+	// is the only thing between a 34- or 35-byte packet and the data[28:36] slice)
+	for _, pk := range []struct{ from, to, fromSvc, toSvc string }{
+		{atkID, selfID, "client", "probe"}, {atkID, selfID, "client", "ping"}, {atkID, selfID, "client", "unreach"},
+		{atkID, selfID, "client", "nosuch"}, {selfID, selfID, "probe", "probe"}, {goodID, selfID, "client", "probe"},
+		{atkID, goodID, "client", "svc"}, {selfID, goodID, "ping", "pingB"}, {"probe", selfID, "client", "probe"},
+	} {
+		full := dataPacket(5, nameHash(pk.from), nameHash(pk.to), pk.fromSvc, pk.toSvc, []byte("DATA"))
+		ds := []dgram{hs}
+		for l := 0; l <= len(full); l++ {
+			ds = append(ds, dgram{append([]byte{}, full[:l]...), "valid-data-truncated"})
+		}
+		add("truncated-valid-data", ds, "")
+		// and each of the two critical lengths on its own, as the first packet after the handshake
+		for _, l := range []int{33, 34, 35, 36} {
+			add("truncated-valid-data", []dgram{hs, {append([]byte{}, full[:l]...), "valid-data-truncated"}}, "")
+		}
+	}
 	// every type byte once, both phases
 	for _, phase := range []string{"pre", "post"} {
 		for base := 0; base < 256; base += 32 {
